@@ -1,6 +1,7 @@
 #!/bin/bash
 # tools/refactor_verify.sh <dir with patch.diff> [checks...]: apply a BEHAVIOUR-PRESERVING change to a scratch copy of /repo and
 # run the quick checks: every one must exit 0 (no VIOLATION, no INCONCLUSIVE). Prints whatever is not rc=0.
+HERE="$(cd "$(dirname "${BASH_SOURCE[0]}")/.." && pwd)"
 SD="$(readlink -f "$1")"; shift
 CHECKS="$*"; [ -z "$CHECKS" ] && CHECKS=$(seq -f "C%02g" 1 20)
 D=$(mktemp -d /tmp/refv-XXXXXX); mkdir -p "$D/repo" "$D/out"
@@ -8,7 +9,7 @@ rsync -a --exclude .git --exclude docs --exclude examples /repo/ "$D/repo/"
 if ! (cd "$D/repo" && patch -p1 -s < "$SD/patch.diff"); then echo "PATCH FAILED"; rm -rf "$D"; exit 3; fi
 bad=""
 for c in $CHECKS; do
-  out=$(cd /verif && VERIF_REPO="$D/repo" VERIF_OUT="$D/out" ./check "$c" quick 2>&1); rc=$?
+  out=$(cd "$HERE" && VERIF_REPO="$D/repo" VERIF_OUT="$D/out" ./check "$c" quick 2>&1); rc=$?
   if [ $rc -ne 0 ]; then bad="$bad $c(rc=$rc)"; echo "== $c rc=$rc"; echo "$out" | grep -E "VIOLATION|INCONCLUSIVE|key=" | head -4 | cut -c1-400; fi
 done
 rm -rf "$D"
